@@ -9,19 +9,28 @@ import (
 )
 
 func main() {
-	n := 0
-	for seed := uint64(1); seed < 3000 && n < 3; seed++ {
-		p := gen.Generate(seed, fmt.Sprintf("P%d", seed), gen.FamWire)
+	n, pair, untied := 0, 0, 0
+	for seed := uint64(1); seed < 3000; seed++ {
+		p := gen.Generate(seed, fmt.Sprintf("P%d", seed), gen.FamSubst)
+		n++
+		has := false
 		for _, i := range p.Instances {
-			if strings.HasSuffix(i.Type, "TZ") {
-				w := model.NewWorld(p, nil)
-				r := w.Resolve(i, p.TypeByName(i.Type).Points[0])
-				if len(r.Cands) < 2 {
-					n++
-					fmt.Println(p.JSON())
-					fmt.Println(i.ID, r.Cands)
-				}
+			if strings.HasPrefix(i.Alias, "Aq") {
+				has = true
+			}
+		}
+		if !has {
+			continue
+		}
+		pair++
+		w := model.NewWorld(p, nil)
+		out := w.StartOutcome()
+		if !out.HasTied {
+			untied++
+			if untied <= 2 {
+				fmt.Println(p.JSON())
 			}
 		}
 	}
+	fmt.Println(n, pair, untied)
 }
